@@ -70,7 +70,10 @@ REQUIRE = {"requests_arrived": 800, "arrival_order_checks": 800, "rx_events_chec
            "responses_entries_checked": 500, "redirect_histories_checked": 60, "downgrade_cases": 8,
            "rounds_with_response_pending_and_more_requests_queued": 200, "healthy_progress_checks": 100,
            "wire_payload_checks": 500, "wire_payload_checks_after_earlier_data_or_fargs": 100, "entry_request_echo_checks": 400,
-           "downgrade_refused_location_not_spelt_http": 8}
+           "downgrade_refused_location_not_spelt_http": 8,
+           "early_answered_uploads_with_body_still_outstanding": 4, "upload_body_bytes_checked_after_early_response": 4000000, "upload_cases_all_requests_answered": 4,
+           "reconnect_progress_checks": 8, "requests_queued_late_while_cut-off-before-retry-timer-expired": 5,
+           "requests_queued_late_while_connected": 2, "requests_queued_late_while_reconnecting": 2}
 _EXH = ("queues of 1-3 requests x {immediate, delayed, dribbled} x {no redirect, 302 same server, 307 other port} (each request of the queue "
         "uses the same behaviour); every order of {nothing, raw body, data, fargs} over 2 and 3 consecutive requests x {all POST, POST/DELETE/PUT "
         "with a GET in between}; https->sink with each of 7 Location spellings x {first hop, after one https redirect}; plus reconnect-after-`Connection: close` x next response dribbled {1,2,3,16,all} bytes/round x {GET, POST} x {final length/chunked/EOF-delimited, 302 chunked}")
@@ -208,6 +211,35 @@ def cases(tier, seed, shard, nshards):
                 after = fixed_req(f"D{i}q1", "immediate", "none")
                 yield {"kind": "downgrade", "tls": True, "reconnectable": False, "reqs": [r, after]}
             i += 1
+    # fixed schedule: an upload larger than the socket buffers is answered 3xx as soon as its head is read; the server
+    # keeps reading the announced body (after dawdling `pause` rounds); follow-up and two more queued requests
+    for target in ("same", "relative", "other"):
+        for method in ("POST", "PUT"):
+            for biglen, pause in (((3 << 20) + 17, 0), ((2 << 20) + 1, 12)) if tier != "quick" else (((2 << 20) + 1, 6),):
+                if i % nshards == shard:
+                    r = fixed_req(f"U{i}q0", "immediate", "same")
+                    r["hops"][0].update(status=307, target=target, early=True, pause=pause)
+                    r.update(method=method, bkind="big", biglen=biglen)
+                    yield {"kind": "upload", "tls": False, "reconnectable": False, "srv_rcvbuf": 16384, "client_bs": 65536,
+                           "reqs": [r, fixed_req(f"U{i}q1", "immediate", "none"), fixed_req(f"U{i}q2", "delayed", "none")]}
+                i += 1
+    # fixed schedule: reconnectable client (retry timer on a hand-ticked Tymist), server closes after EVERY response;
+    # request j is queued `queue_after` rounds after the entry of request j-1 appeared: before the cut-off is noticed,
+    # while cut off before the retry timer expires, after it expired / while reconnecting
+    for tock in (0.125, 0.03125):
+        for qa in ((0, 1, 3, 6), (2, 9, 20, 45), (4, 0, 13, 70)) if tier != "quick" else ((0, 1, 3, 6), (2, 9, 20, 45)):
+            for upfront in (0, 2):
+                if i % nshards == shard:
+                    reqs = [fixed_req(f"Z{i}q{j}", "immediate", "none") for j in range(1 + len(qa))]
+                    for j, r in enumerate(reqs):
+                        r["hops"][-1]["connclose"] = True
+                        r["method"] = ["GET", "POST", "GET", "PUT", "DELETE"][j % 5]
+                        if r["method"] in ("POST", "PUT"):
+                            r.update(bkind="body", body="late-" + r["id"])
+                        if j > upfront:
+                            r["queue_after"] = qa[j - 1]
+                    yield {"kind": "closeeach", "tls": False, "reconnectable": True, "tymeout": 1.0, "tock": tock, "reqs": reqs}
+                i += 1
     rng = random.Random(f"{seed}:C19:{shard}")
     nrand = (720 if tier == "quick" else 32000) // nshards
     for c in range(nrand):
@@ -232,6 +264,17 @@ def cases(tier, seed, shard, nshards):
                 if hh["target"] == "relative":
                     hh["target"] = "same"
             kind = "downgrade"
+        if not tls and rng.random() < 0.06:
+            # random members of the close-after-every-response family
+            reqs = [gen_req(rng, f"Y{shard}c{c}r{j}", False, False) for j in range(rng.randint(2, 5))]
+            for j, r in enumerate(reqs):
+                r["hops"] = [h for h in r["hops"] if h["target"] is None]
+                r["hops"][-1].update(connclose=True, framing="length", close_mid=None)
+                if j and rng.random() < 0.7:
+                    r["queue_after"] = rng.choice([0, 1, 2, 3, 5, 8, 13, 21, 34, 60])
+            yield {"kind": "closeeach", "tls": False, "reconnectable": True, "tymeout": rng.choice([0.5, 1.0, 2.0]),
+                   "tock": rng.choice([0.125, 0.0625, 0.03125]), "reqs": reqs}
+            continue
         yield {"kind": kind, "tls": tls, "reconnectable": rng.random() < 0.3, "reqs": reqs}
 
 
@@ -298,6 +341,10 @@ class RConn:
         self.cur = None
         self.closed = False
         self.peer_eof = False
+        self.skip = 0             # body bytes of an early-answered request that are still to arrive
+        self.skip_req = None      # its spec (the bytes are compared with the spec's body as they come)
+        self.skip_off = 0
+        self.pause = 0            # rounds during which this connection is not read
 
 
 class RawServer:
@@ -311,6 +358,9 @@ class RawServer:
         self.nconn = 0
         self.ls = socket.socket(socket.AF_INET, socket.SOCK_STREAM)
         self.ls.setsockopt(socket.SOL_SOCKET, socket.SO_REUSEADDR, 1)
+        if world.case.get("srv_rcvbuf"):
+            # inherited by the accepted sockets: a small window, so that a large upload cannot leave the client in one send()
+            self.ls.setsockopt(socket.SOL_SOCKET, socket.SO_RCVBUF, world.case["srv_rcvbuf"])
         try:
             self.ls.bind(("127.0.0.1", port))
             self.ls.listen(16)
@@ -386,8 +436,11 @@ class RawServer:
                 w.ev("tls_failed", self.name, c.idx, repr(ex)[:80])
                 self._close(c, why="tls-failed")
                 return
-        # read everything that is there
-        while not c.peer_eof:
+        # read everything that is there (unless the script says this server dawdles over an upload)
+        if c.pause > 0:
+            c.pause -= 1
+            w.ctx.count("upload_rounds_server_not_reading")
+        while not c.peer_eof and c.pause == 0:
             try:
                 d = c.sock.recv(65536)
             except (BlockingIOError, InterruptedError, ssl.SSLWantReadError, ssl.SSLWantWriteError):
@@ -400,6 +453,25 @@ class RawServer:
                 c.peer_eof = True
                 w.ev("peer_eof", self.name, c.idx)
                 break
+            if c.skip:
+                # the rest of a body whose request was answered early: these bytes belong to that request
+                n = min(len(d), c.skip)
+                want = upload_bytes(c.skip_req, c.skip_off, n)
+                if bytes(d[:n]) != want:
+                    at = next(k for k in range(n) if d[k] != want[k])
+                    w.viol("upload-body-corrupted-after-early-response",
+                           f"body byte {c.skip_off + at} of request {c.skip_req['id']} (answered early with a redirect, body still "
+                           f"being sent) is not the request's own: got {bytes(d[at:at + 60])!r}, expected {want[at:at + 30]!r}")
+                    c.skip = 0
+                    self._close(c, why="upload-corrupted")
+                    w.server_closed = True
+                    return
+                w.ctx.count("upload_body_bytes_checked_after_early_response", n)
+                c.skip -= n
+                c.skip_off += n
+                d = d[n:]
+                if not d:
+                    continue
             w.ev("rx", self.name, c.idx, len(d))
             w.ctx.count("rx_events_checked_against_outstanding_response")
             if self.sink:
@@ -415,6 +487,14 @@ class RawServer:
             c.rbuf.extend(d)
         # parse complete requests
         while True:
+            if c.skip:
+                break
+            try:
+                early = self._early(c)
+            except httpref.HttpRefError:
+                early = False
+            if early:
+                continue
             try:
                 msg, used = httpref.parse_request(c.rbuf)
             except httpref.HttpRefError as ex:
@@ -434,7 +514,37 @@ class RawServer:
         if c.peer_eof and c.cur is None and not c.queue and not c.closed:
             self._close(c, log=False)
 
-    def _arrived(self, c, msg):
+    def _early(self, c):
+        """A scripted hop with early=True is answered as soon as its HEAD is here; the announced body is read afterwards."""
+        w = self.w
+        ph = httpref.parse_request_head(c.rbuf)
+        if ph is None:
+            return False
+        msg, head_len, kind, length = ph
+        rid = msg.get("x-id")
+        req = w.script.get(rid)
+        if req is None or kind != "length" or not length or not msg.target.startswith("/h0/") or not req["hops"][0].get("early"):
+            return False
+        del c.rbuf[:head_len]
+        c.skip, c.skip_req, c.skip_off = length, req, 0
+        c.pause = req["hops"][0].get("pause", 0)
+        w.ctx.count("early_answered_uploads")
+        if length != req.get("biglen"):
+            w.viol("request-payload-on-wire:not-its-own", f"request {rid} announces Content-Length {length}, its body has {req.get('biglen')} bytes")
+        # whatever body bytes came with the head
+        n = min(len(c.rbuf), c.skip)
+        if n:
+            if bytes(c.rbuf[:n]) != upload_bytes(req, 0, n):
+                w.viol("upload-body-corrupted-after-early-response", f"first {n} body bytes of request {rid} are not its own")
+            del c.rbuf[:n]
+            c.skip -= n
+            c.skip_off += n
+        if c.skip:
+            w.ctx.count("early_answered_uploads_with_body_still_outstanding")
+        self._arrived(c, msg, early=True)
+        return True
+
+    def _arrived(self, c, msg, early=False):
         w = self.w
         rid = msg.get("x-id")
         path = msg.target.split("?")[0]
@@ -457,7 +567,7 @@ class RawServer:
         n = len(w.arrived)
         if key in w.arrived:
             w.viol("request-arrived-twice", f"request {rid} hop {hop} arrived a second time at {self.name}")
-        elif not w.server_closed:
+        elif not w.server_closed or w.case.get("kind") == "closeeach":
             if n >= len(w.expected) or w.expected[n] != key:
                 w.viol("request-arrival-out-of-order",
                        f"arrival #{n} is {rid} hop {hop}, queue order says {w.expected[n] if n < len(w.expected) else None}")
@@ -473,7 +583,11 @@ class RawServer:
             w.ctx.count("request_sent_to_previous_redirect_target")
         if msg.method != req["method"]:
             w.ctx.count("hop_method_differs_from_original")
-        if hop == 0:
+        if hop == 0 and not early and bkind_of(req) == "big":
+            w.ctx.count("upload_bodies_received_whole")
+            if msg.body != upload_bytes(req, 0, req["biglen"]):
+                w.viol("request-payload-on-wire:not-its-own", f"upload body of request {rid}: {len(msg.body)} bytes, differs from the spec's {req['biglen']}")
+        elif hop == 0 and not early:
             w.ctx.count("wire_payload_checks")
             w.ctx.count("wire_payload_kind_" + bkind_of(req))
             qi = w.ids.index(rid)
@@ -659,7 +773,9 @@ def request_dict(r):
          "qargs": dict(r["qargs"]) if r["qargs"] else dict(), "fragment": "",
          "reply": {"rid": r["id"]}}
     bk = bkind_of(r)
-    if bk in ("body", "data+body"):
+    if bk == "big":
+        d["body"] = upload_bytes(r, 0, r["biglen"])
+    elif bk in ("body", "data+body"):
         d["body"] = r["body"].encode("latin-1")
     elif bk == "none":
         d["body"] = b""
@@ -671,6 +787,14 @@ def request_dict(r):
         for k in ("body", "data", "fargs"):
             d.setdefault(k, None)
     return d
+
+
+def upload_bytes(r, off, n):
+    """bytes [off, off+n) of the large body of request spec r (a repeated unit that contains the request id)"""
+    unit = ("<" + r["id"] + ":upload-0123456789abcdefghijklmnopqrstuvwxyz>").encode("latin-1")
+    start = off % len(unit)
+    reps = (start + n) // len(unit) + 1
+    return (unit * reps)[start:start + n]
 
 
 def bkind_of(r):
@@ -706,8 +830,13 @@ def rounds_budget(case):
             n += h["delay"] + (size // h["dribble"] + 2 if h["dribble"] else 1) + 8
             if h["target"] in ("other", "downgrade"):
                 n += 12 if case["tls"] else 4
+        if r.get("biglen"):
+            n += r["biglen"] // 16384 + r["hops"][0].get("pause", 0) + 30
+        n += r.get("queue_after", 0)
     if case["tls"]:
         n += 20
+    if case.get("kind") == "closeeach":
+        n += len(case["reqs"]) * (int(3 * case["tymeout"] / case["tock"]) + 20)
     return n
 
 
@@ -727,8 +856,10 @@ def run_case(case, ctx):
             c = open_raw(ctx, world, "C", None, sink=True)
             servers.append(c)
             world.ports["C"] = c.port
-        tymist = tyming.Tymist(tyme=0.0, tock=0.125)
-        kwa = dict(bufsize=131072, reconnectable=case["reconnectable"], tymth=tymist.tymen(), tymeout=0.5)
+        tymist = tyming.Tymist(tyme=0.0, tock=case.get("tock", 0.125))
+        kwa = dict(bufsize=131072, reconnectable=case["reconnectable"], tymth=tymist.tymen(), tymeout=case.get("tymeout", 0.5))
+        if case.get("client_bs"):
+            kwa["bs"] = case["client_bs"]     # tcp.Client buffer size: pins SO_SNDBUF (no autotuning up to tcp_wmem[2])
         if case["tls"]:
             certs = env.certs_dir()
             client = clienting.Client(hostname="localhost", port=a.port, scheme="https", certedhost="localhost",
@@ -752,8 +883,13 @@ def run_case(case, ctx):
 def _drive(case, ctx, w, servers, client, tymist):
     reqs = case["reqs"]
     ids = [r["id"] for r in reqs]
-    for r in reqs:
-        client.requests.append(request_dict(r))
+    nqueued = 0
+    while nqueued < len(reqs) and "queue_after" not in reqs[nqueued]:
+        client.requests.append(request_dict(reqs[nqueued]))
+        nqueued += 1
+    queued_how = {r["id"]: "upfront" for r in reqs[:nqueued]}
+    entry_round = {}           # queue index -> round in which its entry was first seen
+    closeeach = case.get("kind") == "closeeach"
     downgrade = any(h["target"] == "downgrade" for r in reqs for h in r["hops"])
     relative = any(h["target"] == "relative" for r in reqs for h in r["hops"])
     closing = any(h["connclose"] or h["close_mid"] is not None or h["framing"] == "eof" for r in reqs for h in r["hops"])
@@ -776,6 +912,7 @@ def _drive(case, ctx, w, servers, client, tymist):
         for i in range(len(seen_entries), len(resp)):
             e = resp[i]
             seen_entries.append(e)
+            entry_round[i] = w.rnd
             ctx.count("responses_entries_checked")
             w.ev("response_entry", i, e.get("status"), bool(e.get("errored")))
             rq = e.get("request") or {}
@@ -917,6 +1054,26 @@ def _drive(case, ctx, w, servers, client, tymist):
         nodelay(client, seen_socks, w)
         if not check_responses():
             break
+        # queue the next deferred request once its moment has come, and note in what state the client is then
+        while nqueued < len(reqs):
+            r = reqs[nqueued]
+            if "queue_after" in r:
+                if (nqueued - 1) not in entry_round or rnd - entry_round[nqueued - 1] < r["queue_after"]:
+                    break
+                cn = client.connector
+                if cn.cutoff:
+                    how = "cut-off-retry-timer-expired" if (cn.tymeout > 0.0 and cn.tymer.expired) else "cut-off-before-retry-timer-expired"
+                elif not cn.connected:
+                    how = "reconnecting"
+                else:
+                    how = "connected"
+                queued_how[r["id"]] = how
+                ctx.count("requests_queued_late_while_" + how)
+                w.ev("queued", r["id"], how)
+            else:
+                queued_how[r["id"]] = "together-with-previous"
+            client.requests.append(request_dict(r))
+            nqueued += 1
         if len(client.responses) >= len(reqs) and not client.requests:
             done_rounds += 1
             if done_rounds > 3:
@@ -933,6 +1090,24 @@ def _drive(case, ctx, w, servers, client, tymist):
 
     nresp = len(client.responses)
     healthy = not w.server_closed and not downgrade and escaped is None and not closing and not w.violated
+    if closeeach and escaped is None and not w.violated:
+        # the server is a healthy HTTP server that closes after each response and accepts again: a reconnectable client
+        # must get every request through within the budget (retry timer periods are part of the budget)
+        ctx.count("reconnect_progress_checks")
+        ctx.count("reconnects_needed", len(reqs) - 1)
+        if nresp != len(reqs) or nqueued != len(reqs):
+            stuck = reqs[min(nresp, len(reqs) - 1)]
+            cn = client.connector
+            w.viol("no-progress:reconnect:request-queued-" + queued_how.get(stuck["id"], "never"),
+                   f"{nresp} of {len(reqs)} responses after {rnd} rounds (budget {budget}, retry timer {cn.tymeout}, tock {case.get('tock')}); "
+                   f"request {stuck['id']} was queued [{queued_how.get(stuck['id'])}] and {'never arrived' if not any(k[0] == stuck['id'] for k in w.arrived) else 'arrived'} "
+                   f"at the server, which closes after every response and accepts again; waited={client.waited} queued={len(client.requests)} "
+                   f"connected={cn.connected} cutoff={cn.cutoff} txbs={len(cn.txbs)} tyme={tymist.tyme}")
+        else:
+            errs = [i for i, e in enumerate(client.responses) if e.get("errored")]
+            if errs:
+                w.viol("errored-response-after-reconnect",
+                       f"entries {errs} are errored ({client.responses[errs[0]].get('error')!r}) although every response was written completely before the close")
     if healthy:
         ctx.count("healthy_progress_checks")
         if nresp != len(reqs):
@@ -949,6 +1124,17 @@ def _drive(case, ctx, w, servers, client, tymist):
             w.viol("no-progress:" + qual,
                    f"{nresp} of {len(reqs)} responses after {rnd} rounds (budget {budget}); request {stuck['id']} ({stuck['method']}, "
                    f"hops arrived {hops_arrived}) got every scripted response completely, no entry appeared; {state}")
+    if case.get("kind") == "upload":
+        ctx.count("upload_cases")
+        if nresp == len(reqs) and not w.violated:
+            ctx.count("upload_cases_all_requests_answered")
+    # (counted, not judged: entry['body'] is the respondent's own bytearray, emptied in place by the next parseBody)
+    for i, e in enumerate(list(client.responses)):
+        req = w.script.get(w.entry_ids[i]) if i < len(w.entry_ids) else None
+        if req is not None and not e.get("errored") and e.get("status") == req["hops"][-1]["status"] \
+                and req["method"] != "HEAD" and req["hops"][-1]["body"] and not w.server_closed:
+            same = bytes(e.get("body") or b"") == req["hops"][-1]["body"].encode("latin-1")
+            ctx.count("entry_body_intact_at_end_of_case" if same else "entry_body_emptied_by_a_later_response_observed")
     if downgrade:
         ctx.count("downgrade_cases")
         ctx.count("downgrade_refusals_by_exception", 1 if refused else 0)
